@@ -88,7 +88,8 @@ def interp_event(n1, n2, kind, double, rng):
             up = fft_interpolate(x, tuple(n2), normalization="values")
             back = fft_interpolate(up, tuple(n1), normalization="values")
             ev["roundtrip_ppb"] = ppb(relmax(back, x))
-            ev["mean_ppb"] = ppb(abs(np.mean(up) - np.mean(x)) / max(abs(np.mean(x)), float(np.abs(x).max()) * 1e-3))
+            # the mean is preserved to the precision of the data: deviation relative to the magnitude of the values
+            ev["mean_ppb"] = ppb(abs(np.mean(up) - np.mean(x)) / float(np.abs(x).max()))
             upi = fft_interpolate(x, tuple(n2), normalization="intensity")
             i0 = float((np.abs(np.fft.fft2(x)) ** 2).sum())
             i1 = float((np.abs(np.fft.fft2(upi)) ** 2).sum())
